@@ -365,6 +365,22 @@ func (a *Allocation) MarkPreempted() error {
 	return nil
 }
 
+// MarkPreemptedOnce marks the allocation as preempted unless it is released or already marked. Queue, required node
+// and quota change preemption run in different goroutines and all filter their candidates on IsPreempted before any of
+// them marks: only the first one to mark a victim may announce it.
+func (a *Allocation) MarkPreemptedOnce() error {
+	a.Lock()
+	defer a.Unlock()
+	if a.released {
+		return errors.New("allocation is already released")
+	}
+	if a.preempted {
+		return errors.New("allocation is already preempted")
+	}
+	a.preempted = true
+	return nil
+}
+
 // MarkUnPreempted unmarks the allocation as preempted.
 func (a *Allocation) MarkUnPreempted() {
 	a.Lock()
